@@ -20,5 +20,6 @@ def run(prog, tier):
     CR.parameter_writer_rule(prog, res, 'full-length/parameter-write')
     CR.truncating_write_rule(prog, res)
     CR.overstrict_guard_rule(prog, res)
+    CR.primitive_read_rule(prog, res)
     CR.patch_guard_rule(prog, res)
     return res
